@@ -45,7 +45,7 @@ def presentations(ident, op, case, n):
 
 
 def run(ctx):
-    n_ifaces = ctx.pick(300, 1500)
+    n_ifaces = ctx.pick(300, 5000)
     cases = ctx.pick(3, 5)
     npres = ctx.pick(3, 6)
     reqs, metas = [], []
